@@ -32,6 +32,18 @@ Theorem C06_paths_distinct : forall c t,
 Proof. exact paths_nodup. Qed.
 Print Assumptions C06_paths_distinct.
 
+(* the same with the guard discharged, for any start node of a Node tree (non-empty names, distinct
+   sibling names) and a single-character separator c occurring in no name: tree_to_dict returns
+   exactly one (path, record) item per selected node below the start node, in pre-order; depth, path
+   and parent are those inside the whole tree *)
+Theorem C06_dict_records_node_tree : forall c root p o t,
+  valid_tree root = true -> sep_safe [c] root = true -> subtree_at root p = Some t ->
+  tree_to_dict root [c] p o
+  = Ret (map (fun x => (c_path [c] x, dict_record o x))
+             (filter (selected o) (nodes_under (anc_names root p) t))).
+Proof. exact tree_to_dict_records. Qed.
+Print Assumptions C06_dict_records_node_tree.
+
 (* the decision used by the check holds of the model for every input *)
 Theorem C06_dict_prop : forall root sep p o,
   prop_C06_dict root sep p o (res_map canon_dict (tree_to_dict root sep p o)) = true.
